@@ -502,3 +502,39 @@ Proof.
     + by apply (WF_lookup_dat _ _ _ _ _ W'), Hsub.
     + intros k c Hk. by apply (WF_lookup_lnk_child _ _ _ _ _ _ _ W' (Hsub _ Hin) Hk).
 Qed.
+
+(** * the statement in one piece *)
+
+(** [t], materialised in ANY heap [h] that encodes a forest [F] without leak, is a well-formed
+    new root [h_next h] (the heap [h'] IS the canonical encoding of [F] plus the labelled tree
+    [forest_of t (h_next h)], nothing else is live library memory), it owns exactly
+    [ParseDefs.blocks t] pairwise distinct library blocks, and [cJSON_Delete] of it returns
+    without error, leaving a heap [h''] that encodes [F] again with the ledger ([lib_live]) back
+    at its value before. *)
+Definition heap_usable (t : node) : Prop :=
+  forall h F, WF h F -> NoLeak h F ->
+  exists h' h'',
+    mat t h = Ret (Some (h_next h), h') /\
+    WF h' (F ++ [forest_of t (h_next h)]) /\ NoLeak h' (F ++ [forest_of t (h_next h)]) /\
+    lib_live h' = lib_live h ∪ list_to_set (owned [forest_of t (h_next h)]) /\
+    NoDup (owned [forest_of t (h_next h)]) /\
+    Z.of_nat (length (owned [forest_of t (h_next h)])) = blocks t /\
+    cJSON_Delete (Some (h_next h)) h' = Ret (tt, h'') /\
+    WF h'' F /\ NoLeak h'' F /\ lib_live h'' = lib_live h.
+
+Theorem plain_heap_usable t : plain t = true -> heap_usable t.
+Proof. intros Hpl h F W NL. by apply mat_delete. Qed.
+
+(** from the empty heap: the whole ledger is the tree, and deleting it empties the ledger *)
+Corollary plain_usable_from_empty t : plain t = true ->
+  exists h' h'',
+    mat t empty_heap = Ret (Some 1%positive, h') /\ WF h' [forest_of t 1] /\
+    lib_live h' = list_to_set (owned [forest_of t 1]) /\ Z.of_nat (length (owned [forest_of t 1])) = blocks t /\
+    cJSON_Delete (Some 1%positive) h' = Ret (tt, h'') /\ lib_live h'' = ∅.
+Proof.
+  intros Hpl. destruct Abs_empty as (W & NL & _). cbn [as_forest] in W, NL.
+  destruct (mat_delete t empty_heap [] Hpl W NL) as (h' & h'' & H1 & H2 & _ & H4 & _ & H6 & H7 & _ & _ & H10).
+  exists h', h''. split_and!; try done.
+  rewrite H4. apply set_eq. intros b. rewrite elem_of_union. split; [|tauto]. intros [Hb|Hb]; [|done].
+  unfold lib_live in Hb. apply elem_of_filter in Hb as [_ Hb]. by apply elem_of_empty in Hb.
+Qed.
